@@ -2,8 +2,10 @@ package props
 
 import (
 	"encoding/binary"
+	jd "github.com/josephburnett/jd/v2"
 	"math"
 	"strings"
+	"sync"
 	"unicode/utf8"
 
 	"verifharness/gen"
@@ -231,6 +233,49 @@ var bulky = func() []string {
 	out = append(out, ref.ToJSON([]any{x, y}), ref.ToJSON([]any{y, x}), ref.ToJSON([]any{x, x}), ref.ToJSON(map[string]any{x: 1.0}), ref.ToJSON(map[string]any{y: 1.0}))
 	return out
 }()
+
+// partialCollisions returns pairs of short strings whose jd digests (hook
+// VerifHashCode) agree in their first four bytes, and pairs agreeing in their
+// last four: a birthday search over a few hundred thousand strings. Any code
+// that orders, buckets or compares digests by a part of them meets a tie here.
+var (
+	partialOnce  sync.Once
+	partialPairs [][2]string
+)
+
+func partialCollisions() [][2]string {
+	partialOnce.Do(func() {
+		first, last := map[[4]byte]string{}, map[[4]byte]string{}
+		nf, nl := 0, 0
+		r := gen.New(0x9C0111, 1)
+		for i := 0; i < 1500000 && (nf < 3 || nl < 3); i++ {
+			// random lower-case words of 5-8 letters (digests of consecutive spellings are too regular to collide)
+			var w [8]byte
+			n := 5 + r.Intn(4)
+			for k := 0; k < n; k++ {
+				w[k] = byte('a' + r.Intn(26))
+			}
+			s := string(w[:n])
+			h := jd.VerifHashCode(Node(s))
+			var a, b [4]byte
+			copy(a[:], h[:4])
+			copy(b[:], h[4:])
+			if t, ok := first[a]; ok && t != s && nf < 3 {
+				partialPairs = append(partialPairs, [2]string{t, s})
+				nf++
+			} else {
+				first[a] = s
+			}
+			if t, ok := last[b]; ok && t != s && nl < 3 {
+				partialPairs = append(partialPairs, [2]string{t, s})
+				nl++
+			} else {
+				last[b] = s
+			}
+		}
+	})
+	return partialPairs
+}
 
 // wrapText places a JSON text at the root, in an array or under a key.
 func wrapText(t string, how int) (string, bool) {
